@@ -22,6 +22,11 @@
 //! CALL: `self.as_str().m(args)` (direct) | `<pattern param>.m([count,] HAYSTACK)` (pattern trait).
 //! Arm template: `fn m(self, [n: usize,] h: &str) -> R { RECV.m(args) }` plus
 //! `type X<'haystack> = core::str::X<'haystack, Self>;`.
+//! `IterWrapper`: one row per method DEFINED in an `impl Iterator / DoubleEndedIterator / FusedIterator /
+//! ExactSizeIterator for IterWrapper` block, template
+//!   `fn m(&mut self, PARAMS) { RECV.callee(ARGS) [.map(|item| unsafe { item.adopt_unchecked(SRC) })] }`
+//! (ARGS = PARAMS in order → `.unchanged`); any other body is a translator failure.
+//! `iterTypes`: every type of the crate with an `impl Iterator` (closed world for `coverage`).
 
 use proc_macro2::{Delimiter, TokenStream, TokenTree};
 use syn::parse::Parser;
@@ -1395,11 +1400,15 @@ struct FwdRow {
     method: String,
     callee: String,
     recv: String,
+    args: Pass,
     item: String,
     inner_bounds: Vec<String>,
     item_adopt: bool,
     loc: String,
 }
+
+/// the iterator traits whose impls for `IterWrapper` are read method by method
+const ITER_TRAITS: &[&str] = &["Iterator", "DoubleEndedIterator", "FusedIterator", "ExactSizeIterator"];
 
 struct NewRow {
     params: Vec<String>,
@@ -1449,7 +1458,8 @@ fn iter_wrapper(file: &SrcFile) -> Result<(Vec<FwdRow>, Vec<String>, NewRow), St
             Some((_, tr, _)) => {
                 let tname = last_seg(tr);
                 traits.push(tname.clone());
-                if tname == "Clone" {
+                // one row per method DEFINED in an iterator-trait impl; other traits (Clone, …) by name only
+                if !ITER_TRAITS.contains(&tname.as_str()) {
                     continue;
                 }
                 // inner iterator type parameter = last generic argument of the self type
@@ -1539,11 +1549,33 @@ fn iter_wrapper(file: &SrcFile) -> Result<(Vec<FwdRow>, Vec<String>, NewRow), St
                     } else {
                         format!("(.other {})", lean_str(&text(r)))
                     };
+                    // the method's own parameters, handed to the inner method as they are, in order
+                    let mut params: Vec<String> = vec![];
+                    for a in &f.sig.inputs {
+                        if let FnArg::Typed(pt) = a {
+                            match &*pt.pat {
+                                Pat::Ident(pi) => params.push(pi.ident.to_string()),
+                                _ => return Err(fail("parameter pattern")),
+                            }
+                        }
+                    }
+                    let passed: Vec<Option<String>> = inner_call.args.iter().map(|a| path_ident(strip(a))).collect();
+                    let args = if params.is_empty() && passed.is_empty() {
+                        Pass::Absent
+                    } else if passed.len() == params.len() && passed.iter().zip(&params).all(|(a, p)| a.as_ref() == Some(p)) {
+                        Pass::Unchanged
+                    } else {
+                        Pass::Other(inner_call.args.iter().map(|a| text(a)).collect::<Vec<_>>().join(", "))
+                    };
+                    if inner_call.turbofish.is_some() || outer.turbofish.is_some() {
+                        return Err(fail("turbofish"));
+                    }
                     fwd.push(FwdRow {
                         trait_: tname.clone(),
                         method: f.sig.ident.to_string(),
                         callee: inner_call.method.to_string(),
                         recv,
+                        args,
                         item,
                         inner_bounds: inner_bounds.clone(),
                         item_adopt,
@@ -1555,6 +1587,40 @@ fn iter_wrapper(file: &SrcFile) -> Result<(Vec<FwdRow>, Vec<String>, NewRow), St
     }
     let new_row = new_row.ok_or_else(|| format!("Gen/Wiring: IterWrapper::new not found in {PATTERN_RS}"))?;
     Ok((fwd, traits, new_row))
+}
+
+// ---------------------------------------------------------------------------------------------
+// every type of the crate that implements `Iterator` (closed world: a new one must be classified)
+
+fn iter_types_in(file: &SrcFile, items: &[Item], out: &mut Vec<(String, String)>) {
+    for item in items {
+        match item {
+            Item::Impl(imp) => {
+                if let Some((_, tr, _)) = &imp.trait_ {
+                    if last_seg(tr) == "Iterator" {
+                        let name = impl_self_name(imp);
+                        let name = if name.is_empty() { squeeze(&text(&imp.self_ty)) } else { name };
+                        out.push((name, loc(file, imp.impl_token.span)));
+                    }
+                }
+            }
+            Item::Mod(m) => {
+                let is_test = m.attrs.iter().any(|a| squeeze(&text(a)).contains("cfg(test)")) || m.ident == "tests";
+                if let (false, Some((_, items))) = (is_test, &m.content) {
+                    iter_types_in(file, items, out);
+                }
+            }
+            _ => {}
+        }
+    }
+}
+
+fn iter_types(repo: &Repo) -> Vec<(String, String)> {
+    let mut out = vec![];
+    for f in repo.non_test_files() {
+        iter_types_in(f, &f.ast.items, &mut out);
+    }
+    out
 }
 
 // ---------------------------------------------------------------------------------------------
@@ -1698,17 +1764,22 @@ pub fn generate(repo: &Repo) -> Result<Vec<GenFile>, String> {
         list(fwd
             .iter()
             .map(|f| format!(
-                "⟨{}, {}, {}, {}, {}, [{}], {}, {}⟩",
+                "⟨{}, {}, {}, {}, {}, {}, [{}], {}, {}⟩",
                 lean_str(&f.trait_),
                 lean_str(&f.method),
                 lean_str(&f.callee),
                 f.recv,
+                f.args.lean(),
                 f.item,
                 f.inner_bounds.iter().map(|b| lean_str(b)).collect::<Vec<_>>().join(", "),
                 f.item_adopt,
                 lean_str(&f.loc)
             ))
             .collect())
+    ));
+    s.push_str(&format!(
+        "  iterTypes := [{}]\n",
+        iter_types(repo).iter().map(|(n, l)| format!("({}, {})", lean_str(n), lean_str(l))).collect::<Vec<_>>().join(", ")
     ));
     s.push_str(&format!(
         "  iterTraits := [{}]\n",
